@@ -888,10 +888,11 @@ class MPO(MPSGeometry):
         tenpy.networks.mps.MPS.extract_segment : similar method for MPS.
 
         """
-        sites_per_ring = self.L // self.unit_cell_width
-        unit_cell_width, remainder = divmod(last + 1 - first, sites_per_ring)
+        # note: for grouped sites, the number of sites per ring can be fractional
+        unit_cell_width, remainder = divmod((last + 1 - first) * self.unit_cell_width, self.L)
         if remainder != 0:
-            msg = f'Number of sites must be an integer multiple of unit_cell_width={unit_cell_width}.'
+            sites_per_ring = self.L / self.unit_cell_width
+            msg = f'Number of sites must be an integer multiple of {sites_per_ring}.'
             raise ValueError(msg)
         L = self.L
         sites = [self.sites[i % L] for i in range(first, last + 1)]
